@@ -143,7 +143,8 @@ func (o *Options) populateResolver(c *cli.Context) {
 
 func GetTimeFromString(now time.Time, format string, date string) (time.Time, error) {
 	if date == "today" {
-		return now.Local(), nil
+		// the current date as it was given (--today is a calendar date, not an instant of the local zone)
+		return now, nil
 	}
 	if date == "yesterday" {
 		return now.AddDate(0, 0, -1), nil
